@@ -148,6 +148,18 @@ def run_cases(prop, P, cases, tag):
                                 findings.append({"case": name.split(":")[0], "kind": "harness", "check": "oracle-exception", "detail": repr(ex)[:300]})
                             if err:
                                 findings.append({"case": name.split(":")[0], "kind": "spec", "check": "oracle", "detail": err[:500]})
+                        elif line.startswith("Q ") and P.get("q_oracle"):
+                            # what validate() returned for the same file (harness mode `parsev`)
+                            name, pl = sx.pline(line)
+                            case = byname.get(name.split(":")[0])
+                            n_or += 1
+                            try:
+                                err = P["q_oracle"](case, pl)
+                            except Exception as ex:
+                                err = None
+                                findings.append({"case": name.split(":")[0], "kind": "harness", "check": "oracle-exception", "detail": repr(ex)[:300]})
+                            if err:
+                                findings.append({"case": name.split(":")[0], "kind": "spec", "check": "oracle", "detail": err[:500]})
             stats["oracle_evaluations"] = stats.get("oracle_evaluations", 0) + n_or
         if P.get("post"):
             f2, st2 = P["post"](cases, all_xs)
